@@ -13,7 +13,7 @@ repository's fixtures is `elanLayout`.
   exactly the data written; `parseLong_layout_crlf` — the same text with CRLF line ends.
 * signed numerals (`-0` starts, negative times) are numerals of the family since fix A30: `LongNum` admits a leading `-` on every
   numeric row (`numAfter_gen`); `writeLongS` with its separate sign knob is internal scaffolding (knob off: `parseLong_layoutS`).
-* the data hypotheses (`LongNum`, `NoKwLong`, `StrippedLabels`, `NameRowFree`, `NoCRLF`, `Stripped'`), classified, and the
+* the data hypotheses (`LongNum`, `NoKwLong`, `StrippedLabels`, `NoCRLF`; none on tier names beyond the keywords), classified, and the
   counter-examples for what they exclude: last section.
 * `parseLong_elan`, `parseLong_praat`, `long_short_equal`, `dropEmpty_spec`.
 * `class_eq_regression`, `parseLong_tight`: regression for finding A22 (fixed, df3976c): the class row used to be recognised by
@@ -1501,8 +1501,8 @@ independent writer, "arbitrary tier data"): `hnum` — `-?[\d.]+(?:[eE][-+]?\d+)
 fix A30 (`long_short_negative_regression`, `neg_zero_start_sample`); `hkw` — known defect A10 (`C01.parseLong_keyword_counterexample`);
 `hlab` — kept: the reader strips labels (`label.strip()`), and so do the `IntervalTier` / `PointTier` constructors the result
 is handed to, so whether a label with surrounding blanks is stripped by the reader is not observable at `openTextgrid`;
-`hname` (`NameRowFree`: single-line, or without the words `xmin` / `xmax`; multi-line names are read since fix A32) — needed,
-`long_short_name_row_counterexample` (known finding A33); `hcr` — a `\r\n` inside a label of an LF file is taken for a line
+no hypothesis on names beyond `hkw` (multi-line names: fix A32; a name line that reads like a span row: fix A33,
+`long_short_name_row_regression`); `hcr` — a `\r\n` inside a label of an LF file is taken for a line
 end (CRLF normalisation is part of the reader's contract: `parseLong_layout_crlf`). -/
 theorem parseLong_layout (L : Layout) (hok : L.ok = true) (num : α → String) (hnum : ∀ x, LongNum (num x).toList) (g : Tg α)
     (lo hi : α) (hkw : ∀ t ∈ g.tiers, NoKwLong t) (hlab : ∀ t ∈ g.tiers, StrippedLabels t)
@@ -1662,8 +1662,8 @@ theorem parseLong_elan (num : α → String) (hnum : ∀ x, LongNum (num x).toLi
 /-- **long and short encodings of the same data open to the same result** (any long layout, LF or CRLF) — negative times
 included (`hnumL` admits a sign since fix A30: `long_short_negative_regression`), tier names with surrounding blanks or tabs
 included (no hypothesis on names since fix A31: `long_short_name_blank_regression`).  The remaining hypotheses exclude exactly
-the cases in which the two readers still DIFFER or are not both defined: a multi-line name (`hname`:
-`long_short_name_newline_counterexample`), the keywords of A10 (`hkwL`, `hkwS`: `C01.parseLong_keyword_counterexample`,
+the cases in which the two readers still DIFFER or are not both defined (multi-line names are no longer among them: fixes A32,
+A33 — `long_short_name_newline_regression`, `long_short_name_row_regression`): the keywords of A10 (`hkwL`, `hkwS`: `C01.parseLong_keyword_counterexample`,
 `C01.parseShort_keyword_counterexample`), no tier at all (`hne`: `C01.parseShort_no_tiers` — the short-format reader raises
 `IndexError`, the long-format one returns no tiers); `hlab` (labels strip-invariant) is enforced by the tier constructors. -/
 theorem long_short_equal (L : Layout) (hok : L.ok = true) (num : α → String) (hnumL : ∀ x, LongNum (num x).toList)
@@ -1801,8 +1801,8 @@ and the hypotheses are gone or weakened; the former counter-example theorems are
 * a tier NAME with surrounding blanks (A31, fixed db5fb4a): kept by both readers (`long_short_name_blank_regression`).  Before:
   stripped by the short-format reader;
 * a multi-line tier NAME (A32, fixed ae33f8b): read by both readers (`long_short_name_newline_regression`).  Before:
-  `ParsingError` in the long-format one.  What `NameRowFree` still excludes — a name LINE that reads like the tier's span row — is
-  `long_short_name_row_counterexample` (known finding A33).
+  `ParsingError` in the long-format one.  What the intermediate hypothesis `NameRowFree` still excluded — a name LINE that reads like
+  the tier's span row — was defect A33 (fixed d9005cc: the span rows are searched behind the name): `long_short_name_row_regression`.
 -/
 
 /-- **a signed numeral on ANY numeric row** (`xmin`, `xmax` of a tier or an interval, `number` of a point — pattern
